@@ -3824,4 +3824,102 @@ theorem replace_residual_of_inv (S : Schema) (hdet : PM.C11.detB S = true) (hfil
     | addNodeMark _ _ => exact hs
     | removeNodeMark _ _ => exact hs
 
+/-- **any `replace(f, t, slice)` with a loosely valid slice: no payload hypothesis for the recorded `ReplaceStep`** —
+    `OpResidual` follows from `DeleteResidual` (normal form and pair-alignment for a `ReplaceStep`; the full guard for a
+    `ReplaceAroundStep`) for every request slice that is loosely valid (`Slice.looseValid`: what a slice cut from a valid
+    document satisfies), under the hypotheses of `C11.fit_emits_valid_payload`: the schema guards, the document valid with
+    creatable element types, and the run hypothesis `unplacedWfRun` of `C11.fit_emits_wf` (the unplaced slice stays
+    well-formed).  The run hypothesis `fitEndInv` of `replace_residual_of_inv` is gone. -/
+theorem replace_residual (S : Schema) (hdet : PM.C11.detB S = true) (hfill : S.fillersOKB = true)
+    (hwrap : S.wrapOKB = true) (hlab : S.labelsOKB = true) (hleaf : PM.FromDom.leafOkB S = true)
+    (hts : textStableC S = true) (hcl : S.closableB = true)
+    (tr tr1 : Tr) (hlen : tr.steps.length = tr.docs.length) (hv : C01.Valid S tr.doc)
+    (hattrs : S.nodeAttrsOK tr.doc = true) (f t : Nat) (sl : Slice) (hloose : sl.looseValid S = true)
+    (hrun : unplacedWfRun S tr.doc f t sl = true)
+    (h : tr.runOp S (.replace f t sl) = some tr1) (hres : DeleteResidual S tr tr1) :
+    OpResidual S (.replace f t sl) tr tr1 := by
+  have h' : tr.planned (fun st => st.replaceF S f t sl) = some tr1 := h
+  obtain ⟨st', hrun', htr⟩ := Tr.planned_some h'
+  obtain ⟨r, hr, hstep⟩ := PSt.replaceF_spec S { tr := tr } st' f t sl hrun'
+  simp only at hr hstep
+  cases r with
+  | none =>
+    simp only at hstep
+    have e : tr1.hist = tr.hist ++ [] := by rw [← htr, hstep]; simp
+    show HistAll (FamilyGuard S) (appended tr tr1) tr1.doc
+    rw [appended_eq e]
+    trivial
+  | some s =>
+    simp only at hstep
+    rw [htr] at hstep
+    obtain ⟨e, _⟩ := Tr.step_hist hlen hstep
+    show HistAll (FamilyGuard S) (appended tr tr1) tr1.doc
+    unfold DeleteResidual at hres
+    rw [appended_eq e] at hres ⊢
+    refine ⟨?_, trivial⟩
+    have hs := hres.1
+    obtain ⟨sl', hsl', hval⟩ := PM.C11.fit_emits_valid_payload S hdet hfill hwrap hlab hleaf hts hcl tr.doc f t sl hloose hv
+      hattrs hrun s hr
+    cases s with
+    | replace F T sl0 b =>
+      simp only at hs
+      simp only [Step.sliceOf, Option.some.injEq] at hsl'
+      subst hsl'
+      exact ⟨hs.1, hval, hs.2⟩
+    | replaceAround F T G1 G2 sl0 ins b => exact hs
+    | addMark _ _ _ => exact hs
+    | removeMark _ _ _ => exact hs
+    | attr _ _ _ => exact hs
+    | docAttr _ _ => exact hs
+    | addNodeMark _ _ => exact hs
+    | removeNodeMark _ _ => exact hs
+
+/-- `replace_residual` for a slice **cut from a valid document** (`src.slice a b`: what `Transform.replace` is handed by
+    every caller that copies content): loosely valid by `C11.slice_loose`, so no payload hypothesis for the recorded
+    `ReplaceStep` -/
+theorem replace_residual_cut (S : Schema) (hdet : PM.C11.detB S = true) (hfill : S.fillersOKB = true)
+    (hwrap : S.wrapOKB = true) (hlab : S.labelsOKB = true) (hleaf : PM.FromDom.leafOkB S = true)
+    (hts : textStableC S = true) (hcl : S.closableB = true)
+    (tr tr1 : Tr) (hlen : tr.steps.length = tr.docs.length) (hv : C01.Valid S tr.doc)
+    (hattrs : S.nodeAttrsOK tr.doc = true) (f t : Nat) (src : Node) (a b : Nat) (sl : Slice)
+    (hsrc : C01.Valid S src) (hcut : src.slice a b = .ok sl)
+    (hrun : unplacedWfRun S tr.doc f t sl = true)
+    (h : tr.runOp S (.replace f t sl) = some tr1) (hres : DeleteResidual S tr tr1) :
+    OpResidual S (.replace f t sl) tr tr1 := by
+  have h' : tr.planned (fun st => st.replaceF S f t sl) = some tr1 := h
+  obtain ⟨st', hrun', htr⟩ := Tr.planned_some h'
+  obtain ⟨r, hr, hstep⟩ := PSt.replaceF_spec S { tr := tr } st' f t sl hrun'
+  simp only at hr hstep
+  cases r with
+  | none =>
+    simp only at hstep
+    have e : tr1.hist = tr.hist ++ [] := by rw [← htr, hstep]; simp
+    show HistAll (FamilyGuard S) (appended tr tr1) tr1.doc
+    rw [appended_eq e]
+    trivial
+  | some s =>
+    simp only at hstep
+    rw [htr] at hstep
+    obtain ⟨e, _⟩ := Tr.step_hist hlen hstep
+    show HistAll (FamilyGuard S) (appended tr tr1) tr1.doc
+    unfold DeleteResidual at hres
+    rw [appended_eq e] at hres ⊢
+    refine ⟨?_, trivial⟩
+    have hs := hres.1
+    obtain ⟨sl', hsl', hval⟩ := PM.C11.fit_emits_valid_payload_cut S hdet hfill hwrap hlab hleaf hts hcl tr.doc f t src a b sl
+      hsrc hcut hv hattrs hrun s hr
+    cases s with
+    | replace F T sl0 b0 =>
+      simp only at hs
+      simp only [Step.sliceOf, Option.some.injEq] at hsl'
+      subst hsl'
+      exact ⟨hs.1, hval, hs.2⟩
+    | replaceAround F T G1 G2 sl0 ins b0 => exact hs
+    | addMark _ _ _ => exact hs
+    | removeMark _ _ _ => exact hs
+    | attr _ _ _ => exact hs
+    | docAttr _ _ => exact hs
+    | addNodeMark _ _ => exact hs
+    | removeNodeMark _ _ => exact hs
+
 end PM.C04
